@@ -439,6 +439,9 @@ def concat(objs, axis=0, join="outer", ignore_index=False, keys=None, names=None
     if isinstance(objs, dict):
         keys = list(objs.keys())
         objs = list(objs.values())
+    if keys is not None and len(list(keys)) != len(list(objs)):
+        raise ValueError(f"The length of the keys ({len(list(keys))}) must match the length of the objects to "
+                         f"concatenate ({len(list(objs))})")
     objs = [o for o in objs if o is not None]
     if not objs:
         raise ValueError("No objects to concatenate")
@@ -497,7 +500,12 @@ def concat(objs, axis=0, join="outer", ignore_index=False, keys=None, names=None
     if ignore_index:
         index = default_index(len(idx))
     elif keys is not None:
-        index = MultiIndex(idx, names=(list(names) if names else [None]) + frames[0].index.names)
+        nlev = 1 + frames[0].index.nlevels
+        if names and len(list(names)) == nlev:
+            lev_names = list(names)
+        else:
+            lev_names = (list(names) if names else [None]) + frames[0].index.names
+        index = MultiIndex(idx, names=lev_names)
     else:
         index = Index(idx, name=frames[0].index.name if all(f.index.name == frames[0].index.name for f in frames)
                       else None, names=frames[0].index._names)
